@@ -294,13 +294,13 @@ Proof.
     + apply NoDup_app_intro; [apply NoDup_filter; exact Hs|apply NoDup_filter; exact Hf|].
       intros x H1 H2. apply filter_In in H1 as [H1 _]. apply filter_In in H2 as [H2 _]. exact (Hd x H2 H1).
     + intros x H1 H2. apply filter_In in H1 as [H1 P1]. apply in_app_or in H2 as [H2|H2]; apply filter_In in H2 as [H2 P2].
-      * unfold keepC, is_import in *. destruct (is_local x); cbn in *; discriminate.
+      * unfold keepA, keepC, is_import in *. destruct (is_local x); cbn in *; discriminate.
       * exact (Hd x H2 H1).
   - intros x H1 H2. apply filter_In in H1 as [H1 P1].
     apply in_app_or in H2 as [H2|H2]; [|apply in_app_or in H2 as [H2|H2]]; apply filter_In in H2 as [H2 P2].
     + exact (Hd x H1 H2).
     + exact (Hd x H1 H2).
-    + unfold keepA, is_import in *. destruct (is_local x); cbn in *; discriminate.
+    + unfold keepA, keepC, is_import in *. destruct (is_local x); cbn in *; discriminate.
 Qed.
 
 Theorem index_space_NoDup (s : space) lf mf :
